@@ -685,6 +685,8 @@ class Case:
                              "lin-reveal", {"k": k, "reported": cid, "newly_known": newly})
             elif float(out[1]) != float(env.reward) or bool(out[2]) != bool(env.done):
                 self.violate("linear step does not return the underlying environment's reward / done", "lin-result", {"k": k})
+            elif float(lin.reward) != float(env.reward) or bool(lin.done) != bool(env.done):
+                self.violate("the linear environment's own reward / done properties ≠ the underlying environment's", "lin-properties", {"k": k})
             elif not self.lin_close(fl(out[0]), self.agg(self.spec_obs())):
                 self.violate("linear step: observation ≠ per-size sum of the underlying observation", "lin-obs", {"k": k})
         except Exception as e:
